@@ -95,6 +95,14 @@ def oracle(case):
     require(abs(alone - u[p]) <= 1e-12, '%s(theta=%r): lane %d alone gives %r, in the batch %r' % (fam, th, p, alone, u[p]),
             tag='lane-independence')
     perm = np.random.RandomState(case['perm_seed']).permutation(n)
+    # the array returned by the first call belongs to the caller: a later call of the same size must neither return the
+    # same object nor change it (u_lo = ppf(y_lo, v); u_hi = ppf(y_hi, v) is the ordinary way to use the method)
+    first = value(cop.percent_point, y.copy(), v.copy(), what='percent_point')
+    keep = np.array(first, dtype=float, copy=True)
+    second = value(cop.percent_point, y[perm].copy(), v[perm].copy(), what='percent_point')
+    require(first is not second and np.array_equal(np.asarray(first, dtype=float), keep, equal_nan=True),
+            '%s(theta=%r): the result of an earlier percent_point call changed when the method was called again (%r -> %r)'
+            % (fam, th, keep[:3], np.asarray(first, dtype=float)[:3]), tag='result-aliased')
     up = ppf(cop, y[perm], v[perm])
     require(np.all(np.abs(up - u[perm]) <= 1e-12), '%s(theta=%r): permuting the lanes changes results' % (fam, th),
             tag='lane-independence')
